@@ -60,7 +60,16 @@ static struct
   {
     ios_flag_saver s {o};
     if (brv == brevity::full)
-      o << std::showbase;
+      {
+	// N.B. iostreams don't show base for zero, but a bare "0" is a
+	// decimal literal.
+	if (v == 0)
+	  {
+	    o << "0x0";
+	    return;
+	  }
+	o << std::showbase;
+      }
     o << std::hex << v;
   }
 
@@ -87,7 +96,15 @@ static struct
   {
     ios_flag_saver s {o};
     if (brv == brevity::full)
-      o << std::showbase;
+      {
+	// Likewise here: octal zero is "00".
+	if (v == 0)
+	  {
+	    o << "00";
+	    return;
+	  }
+	o << std::showbase;
+      }
     o << std::oct << v;
   }
 
@@ -113,7 +130,7 @@ static struct
   show (mpz_class const &t, std::ostream &o, brevity brv) const override
   {
     if (t == 0)
-      o << '0';
+      o << (brv == brevity::full ? "0b0" : "0");
     else
       {
 	mpz_class v = t < 0 ? -t : t;
